@@ -371,6 +371,7 @@ func (f *Frame) applyContract(c *Contract, sig *types.Signature, invoke bool, ar
 	for _, r := range results {
 		f.constrainFreshRef(r, in)
 	}
+	f.adoptFresh(c, rn, results, in)
 	envM := f.bindContractEnv(c, sig, invoke, args, results)
 	f.applyModifies(c, envM, in)
 	env2 := f.bindContractEnv(c, sig, invoke, args, results)
@@ -1810,4 +1811,46 @@ func (f *Frame) constrainFreshRef(v Val, at ssa.Instruction) {
 		}
 	}
 	f.assume(sOr(alts...))
+}
+
+// adoptFresh: results declared `fresh` are new objects that nothing else references; they are tracked like local
+// allocations (their fields survive havocs until the value escapes).
+func (f *Frame) adoptFresh(c *Contract, rn []string, results []Val, in ssa.Instruction) {
+	if len(c.Fresh) == 0 || in == nil {
+		return
+	}
+	call, ok := in.(*ssa.Call)
+	if !ok {
+		return
+	}
+	for i, r := range results {
+		name := fmt.Sprintf("result%d", i)
+		if i < len(rn) {
+			name = rn[i]
+		}
+		if !containsStr(c.Fresh, name) && !containsStr(c.Fresh, fmt.Sprintf("result%d", i)) {
+			continue
+		}
+		if r.K != VRef || pointee0(r.Typ) == nil {
+			continue
+		}
+		var holder ssa.Value
+		if len(results) == 1 {
+			holder = call
+		} else if refs := call.Referrers(); refs != nil {
+			for _, u := range *refs {
+				if ex, ok := u.(*ssa.Extract); ok && ex.Index == i {
+					holder = ex
+				}
+			}
+		}
+		if holder == nil {
+			continue
+		}
+		ai := &allocInfo{mk: holder, typ: r.Typ, ref: r.T}
+		f.escapeWalk(ai, holder, map[ssa.Value]bool{})
+		f.allocL = append(f.allocL, ai)
+		// a fresh object is distinct from every object known so far
+		f.assume("(not (= " + r.T + " 0))")
+	}
 }
